@@ -130,13 +130,20 @@ pub const STRS: [&str; 7] = ["", "a", "aé", "aé€", "aé€😀", "aé€😀
 /// The same scalars, widest first (so a 4-byte scalar is at index 0).
 pub const SCALARS_REV: [char; 4] = ['😀', '€', 'é', 'a'];
 pub const STRS_REV: [&str; 5] = ["", "😀", "😀€", "😀€é", "😀€éa"];
+/// ASCII scalars AFTER multi-byte ones (byte index != scalar index for the ASCII positions).
+pub const SCALARS_MIX: [char; 4] = ['é', 'a', '€', 'b'];
+pub const STR_MIX: &str = "éa€b";
 
 fn table(rev: bool, k: usize) -> (&'static str, &'static [char]) {
+    if rev && k == 44 {
+        return (STR_MIX, &SCALARS_MIX[..]);
+    }
     if rev { (STRS_REV[k], &SCALARS_REV[..k]) } else { (STRS[k], &SCALARS[..k]) }
 }
 
 pub fn str_char_at_body<N: Nd>(nd: &mut N, rev: bool, k: usize, wrapper: bool) {
     let (s, scalars) = table(rev, k);
+    let k = scalars.len();
     let idx = nd.i64();
     let want = py_index(k, idx);
     vcover!(want == Some(0) && idx < 0, "most negative valid index");
@@ -176,6 +183,7 @@ pub fn str_char_at_body<N: Nd>(nd: &mut N, rev: bool, k: usize, wrapper: bool) {
 
 pub fn str_slice_body<N: Nd>(nd: &mut N, rev: bool, k: usize, wrapper: bool, logged: bool) {
     let (s, scalars) = table(rev, k);
+    let k = scalars.len();
     let start = nd.opt_i64();
     let end = nd.opt_i64();
     let step = nd.opt_i64();
@@ -329,6 +337,18 @@ harnesses! {
     #[kani::unwind(34)]
     #[kani::stub(incan_stdlib::errors::raise, crate::env::raise_stub)]
     fn c05_str_index_k0(nd) { str_char_at_body(nd, false, 0, true) }
+    #[kani::unwind(34)]
+    #[kani::stub(incan_stdlib::errors::raise, crate::env::raise_stub)]
+    fn c05_str_index_k6(nd) { str_char_at_body(nd, false, 6, true) }
+    #[kani::unwind(34)]
+    #[kani::stub(incan_stdlib::errors::raise, crate::env::raise_stub)]
+    fn c05_str_index_mix(nd) { str_char_at_body(nd, true, 44, true) }
+    #[kani::unwind(14)]
+    fn c05_str_char_at_mix(nd) { str_char_at_body(nd, true, 44, false) }
+    #[kani::unwind(34)]
+    #[kani::stub(incan_stdlib::errors::raise, crate::env::raise_stub)]
+    #[kani::stub(alloc::string::String::push, crate::env::string_push_stub)]
+    fn c05_str_slice_wrapper_mix(nd) { str_slice_body(nd, true, 44, true, true) }
 
     // ---- strings: s[a:b:c] (output scalars logged) ---------------------------------------------------
     #[kani::unwind(12)]
